@@ -7,7 +7,7 @@ func init() {
 		ID: "C17", Level: "exploration",
 		Verdict: []string{"bulk.", "copy.", "bytes.", "struct.", "inline.", "witness.verify", "reach.", "deep.", "res.", "size.", "panic", "reopen", "reg.parse"},
 		Rule: "bulk steps inside ordinary histories: batch-build arrays from generated streams (length 0..3000, element sizes from 1 byte to the inline limit, so that the last leaf / last index slab is left underfull at varying levels) and from existing containers, batch-copy maps with the source's seed and order (default and adversarial digesters; in a share of the builds the element stream first suffers a delivery fault - one element delivered twice, or two neighbours swapped - into a scratch storage: the build may refuse, but an accepted result must enumerate exactly Count() distinct keys, serve a lookup of every key and pass the structural verifier), CanCopyNonRefSimple/CopyNonRefSimple on every kind of container (inlined or standalone, with/without references, nested containers, values at the inline boundary), byte-slice<->byte-array both ways around the fast-path threshold; element providers that fail in the middle of the stream (the build must report it); a burst of 20-150 insertions into a freshly built container through the handle the build returned; larger sources (several index slabs per level) in a third of the runs; afterwards sources and results keep being mutated, committed, reloaded and disposed of independently; oracles: content vs model, structure of the result by the independent parser right after the bulk step, copy predicate, reachability with both as roots. Non-trivial = a batch-built container of >= 3 slabs and a successful copy occurred; distinct by trace hash",
-		ExpectedReach: []string{"bulk.array-built", "bulk.map-built", "bulk.from-existing", "bulk.empty", "copy.done", "copy.offered:false", "copy.of-inlined-or-nested", "bytes.to-array", "bytes.from-array", "bytes.from-array-refused", "reach.tree-height>=3", "fault.stream.duplicate", "fault.stream.reorder", "bulk.faulty-stream-refused"},
+		ExpectedReach: []string{"bulk.array-built", "bulk.map-built", "bulk.from-existing", "bulk.empty", "copy.done", "copy.offered:false", "copy.of-inlined-or-nested", "bytes.to-array", "bytes.from-array", "bytes.from-array-refused", "reach.tree-height>=3", "fault.stream.duplicate", "fault.stream.reorder", "bulk.faulty-stream-refused", "bulk.child-in-stream", "bulk.child-in-map-stream"},
 	}, stdHooks{
 		config: func(r *Rng, tier string) Config { return baseConfig(r, "bulk", tier) },
 		profile: func(r *Rng, cfg Config) *Profile {
